@@ -23,6 +23,7 @@ type handRow struct {
 	N      int               `ovsdb:"n"`
 	R      float64           `ovsdb:"r"`
 	B      bool              `ovsdb:"b"`
+	Ignore string            // untagged: not mapped (deliberately not the last field)
 	U      string            `ovsdb:"u"`
 	OptS   *string           `ovsdb:"opt_s"`
 	OptI   *int              `ovsdb:"opt_i"`
@@ -33,7 +34,6 @@ type handRow struct {
 	MapSS  map[string]string `ovsdb:"map_ss"`
 	MapSI  map[string]int    `ovsdb:"map_si"`
 	MapIS  map[int]string    `ovsdb:"map_is"`
-	Ignore string            // untagged: not mapped
 }
 
 const handSchema = `{"name":"Hand","version":"1.0.0","tables":{"Row":{"indexes":[["name"]],"columns":{
@@ -315,6 +315,10 @@ func readPaths(f family, rc *cache.RowCache, uuid string, probe interface{}) map
 		"RowsByCondition()": func() (interface{}, error) {
 			ms, err := rc.RowsByCondition(nil)
 			return ms[uuid], err
+		},
+		// the previous row that Update hands back (here: an update that changes nothing)
+		"Update(same contents)": func() (interface{}, error) {
+			return rc.Update(uuid, kit.DeepCopy(probe), false)
 		},
 	}
 	if f.index != nil {
